@@ -136,7 +136,7 @@ def runScenario (tp : TimeParser τ) (x : Sexp) : String :=
     -- waiters whose condition holds although nobody will wake them any more
     let w := if w.crashed.isNone && finished then
         w.acts.toList.foldl (fun (w : World τ) (act : Activity τ) =>
-          if act.status == .suspended then
+          if act.status == .suspended && act.label < 10000 then
             act.frames.foldl (fun (w : World τ) f => match f with
               | .awaitMark c => if w.eval c then
                   { w with trace := { time := w.time, turn := w.turn, act := 0, label := act.label, tag := "stuck", args := [] } :: w.trace }
@@ -156,7 +156,7 @@ def runScenario (tp : TimeParser τ) (x : Sexp) : String :=
     let levelObs := ";".intercalate ((List.range decls.resources.length).filterMap (fun n =>
       (World.lookup w.resNames n).map (fun rid => codeStr (w.res.getD rid default).levels)))
     let queueObs := codeStr (w.queues.toList.map (fun q => (q.buffer.length : Int)))
-    s!"{trace}|{outcome}|{TimeLike.repr w.time}|{codeStr unfinished}|locks={lockObs}/levels={levelObs}/queues={queueObs}"
+    s!"{trace}|{outcome}|{TimeLike.repr w.time}|{codeStr unfinished}|locks={lockObs}/levels={levelObs}/queues={queueObs}/visible=0"
   | _ => "bad-op"
 
 def handle (line : String) : String :=
